@@ -115,7 +115,7 @@ func safeName(s string) string {
 
 // discharge decides one obligation. For proof obligations unsat = proved; for covers sat = ok.
 func (e *Engine) discharge(o *Obligation, cfg *SolverCfg) {
-	base := filepath.Join(cfg.Dir, safeName(o.Name))
+	base := filepath.Join(cfg.Dir, fmt.Sprintf("%05d_%s", o.Seq, safeName(o.Name)))
 	fz := base + ".smt2"
 	os.WriteFile(fz, []byte(e.query(o, false, false)), 0o644)
 	t0 := time.Now()
@@ -206,7 +206,8 @@ func (e *Engine) dischargeAll(obls []*Obligation, cfg *SolverCfg) {
 			}
 		}()
 	}
-	for _, o := range obls {
+	for i, o := range obls {
+		o.Seq = i // unique file names even if two obligations share a name
 		ch <- o
 	}
 	close(ch)
